@@ -543,13 +543,16 @@ def check_locations(idx: Index, rep: Report) -> None:
     pl = idx.func(AP, "AttrParser._parse_location")
     # parser branches
     branches: dict[str, str] = {}
+    plcfg = CFG(pl.node)
     for n in walk_local(pl.node):
         if isinstance(n, ast.match_case) and isinstance(n.pattern, ast.MatchValue) and isinstance(n.pattern.value, ast.Constant):
             branches[n.pattern.value.value] = "\n".join(unparse(s) for s in n.body)
-        if isinstance(n, ast.If) and "parse_optional_str_literal" in unparse(n.test):
-            branches["<str>"] = "\n".join(unparse(s) for s in n.body)
-        if isinstance(n, ast.If) and "parse_optional_keyword('unknown')" in unparse(n.test):
-            branches["unknown"] = "\n".join(unparse(s) for s in n.body)
+        if isinstance(n, ast.If):
+            tt = resolved_text(plcfg, n.test)  # the test with locals replaced by what they hold (`x = self.parse_...(); if x is not None`)
+            if "parse_optional_str_literal" in tt:
+                branches["<str>"] = "\n".join(unparse(s) for s in n.body)
+            if "parse_optional_keyword('unknown')" in tt:
+                branches["unknown"] = "\n".join(unparse(s) for s in n.body)
     kinds = {"UnknownLoc": "unknown", "FileLineColLoc": "<str>", "NameLoc": "<str>", "CallSiteLoc": "callsite", "FusedLoc": "fused"}
     consumers = {
         "<": ("'<'", "in_angle_brackets", "Delimiter.ANGLE"),
